@@ -3011,6 +3011,18 @@ class Engine(object):
                 if fn in (enumerate, zip, reversed):
                     return PList([tuple(x) if isinstance(x, tuple) else x for x in fn(*cargs)])
                 raise Unsupported('%s over symbolic elements' % fn.__name__)
+            if fn in (sorted, min, max) and isinstance(kwargs.get('key'), PFunc):
+                # a key function written in the interpreted program: evaluated per element; the keys must come out concrete
+                kf = kwargs['key']
+                keyed = []
+                for x_ in cargs[0]:
+                    kv = self.call_closure(kf, [x_], {})
+                    if is_sym(kv) or (isinstance(kv, tuple) and any(is_sym(y_) for y_ in kv)):
+                        raise Unsupported('%s with a symbolic key' % fn.__name__)
+                    keyed.append((kv, x_))
+                kwargs = dict(kwargs, key=lambda pair: pair[0])
+                r = fn(keyed, **kwargs)
+                return PList([p_[1] for p_ in r]) if fn is sorted else r[1]
             r = fn(*cargs, **kwargs)
             if fn in (sorted, reversed, enumerate, zip, range):
                 return PList(list(r))
